@@ -341,3 +341,6 @@ Lemma ok_chi2_spec counts :
   let t := (chi2_num counts - n * (df + 2 * chi_x))%Z in
   (0 < n)%Z /\ ((t <= 0)%Z \/ (t * t <= 4 * df * chi_x * n * n)%Z).
 Proof. unfold ok_chi2_uniform. cbv zeta. rewrite andb_true_iff, orb_true_iff, Z.ltb_lt, !Z.leb_le. reflexivity. Qed.
+
+Lemma normalized_fixed_uniform lo hi k : (lo < hi)%Z -> (0 <= k <= hi - lo)%Z -> q_int_normalized_fixed lo hi k = q_int_uniform lo hi k.
+Proof. intros H1 H2. rewrite (normalized_fixed_id lo hi k H1 H2). unfold q_int_uniform. symmetry. apply clipZ_id. lia. Qed.
